@@ -2,7 +2,10 @@ import EgoVerif.Common.Drv
 import EgoVerif.C43.Model
 /- line protocol (names are hex of UTF-8, "-" = empty string; lists are comma separated, "_" = empty list;
    masks are decimal DSNAction values 0..11):
-   Z                           reset to the empty stores                         → ok
+   Z                           reset to the empty stores, FILE DSN service       → ok
+   Zd                          reset to the empty stores, DATABASE DSN service (dsn_sqldb.go + DSN cache);
+                               W D V g a A Q then run the database-service model    → ok
+   E name                      (database service) the DSN cache drops the entry  → ok
    G u d t keys                GrantPermissions                                  → ok | bad | dup
    R d t u                     DeletePermissions                                 → ok | bad
    C u d t                     createTablePermissions                            → ok
@@ -37,9 +40,8 @@ def sortStr (l : List String) : List String :=
       | y :: ys => if y < x then y :: ins ys else x :: y :: ys
     ins acc) []
 
-def handle (st : St) (line : String) : St × String :=
+def handleFile (st : St) (line : String) : St × String :=
   match fields line with
-  | ["Z"] => (St.init, "ok")
   | ["G", u, d, t, ks] =>
     match nm u, nm d, nm t, nmList ks with
     | some u, some d, some t, some ks =>
@@ -113,6 +115,79 @@ def handle (st : St) (line : String) : St × String :=
     | _, _, _ => (st, "bad-input")
   | _ => (st, "bad-op")
 
-def drv : Drv := { σ := St, init := St.init, step := handle }
+/-- the table_perms operations and the L query are the same functions for both DSN services -/
+def permsLine (line : String) : Bool :=
+  match fields line with
+  | op :: _ => op == "G" || op == "R" || op == "C" || op == "X" || op == "B" || op == "L"
+  | [] => false
+
+def rowOpOf (op : String) : Option RowOp :=
+  if op == "r" then some .read else if op == "i" then some .insert
+  else if op == "u" then some .update else if op == "d" then some .delete else none
+
+/-- database DSN service: DSN operations and queries through `dbReadDSN` (the cache) -/
+def handleDb (s : DSt) (line : String) : DSt × String :=
+  if permsLine line then
+    let r := handleFile ⟨[], [], s.perms⟩ line
+    ({ s with perms := r.1.perms }, r.2)
+  else
+  match fields line with
+  | ["W", n, r] =>
+    match nm n with
+    | some n => (dbWriteDSN s n (r == "1"), "ok")
+    | _ => (s, "bad-input")
+  | ["D", n] =>
+    match nm n with
+    | some n => (dbDeleteDSN s n, "ok")
+    | _ => (s, "bad-input")
+  | ["V", n] =>
+    match nm n with
+    | some n => (dbRevokeAllDSN s n, "ok")
+    | _ => (s, "bad-input")
+  | ["E", n] =>
+    match nm n with
+    | some n => (dbEvict s n, "ok")
+    | _ => (s, "bad-input")
+  | ["g", u, n, m, g] =>
+    match nm u, nm n, m.toNat? with
+    | some u, some n, some m =>
+      (match dbGrantDSN s u n (actOfNat m) (g == "1") with
+       | some s' => (s', "ok")
+       | none => (s, "nodsn"))
+    | _, _, _ => (s, "bad-input")
+  | ["A", su, sa, u, d, t, ops] =>
+    match nm su, nm u, nm d, nm t, nmList ops with
+    | some su, some u, some d, some t, some ops =>
+      let r := dbAuthorized s su (sa == "1") u d t ops
+      (r.1, b01 r.2)
+    | _, _, _, _, _ => (s, "bad-input")
+  | ["a", u, n, m] =>
+    match nm u, nm n, m.toNat? with
+    | some u, some n, some m =>
+      let r := dbAuthDSN s u n (actOfNat m)
+      (r.1, b01 r.2)
+    | _, _, _ => (s, "bad-input")
+  | ["Q", u, adm, idm, op, d, t] =>
+    match nm u, idm.toNat?, rowOpOf op, nm d, nm t with
+    | some u, some idm, some rop, some d, some t =>
+      let r := dbRowRequest s u (adm == "1") (actOfNat idm) rop d t
+      (r.1, match r.2 with | .pass => "pass" | .forbidden => "403" | .noDSN => "nodsn")
+    | _, _, _, _, _ => (s, "bad-input")
+  | _ => (s, "bad-op")
+
+inductive Mode where
+  | file (st : St)
+  | db (s : DSt)
+
+def handle (m : Mode) (line : String) : Mode × String :=
+  match fields line with
+  | ["Z"] => (.file St.init, "ok")
+  | ["Zd"] => (.db DSt.init, "ok")
+  | _ =>
+    match m with
+    | .file st => let r := handleFile st line; (.file r.1, r.2)
+    | .db s => let r := handleDb s line; (.db r.1, r.2)
+
+def drv : Drv := { σ := Mode, init := .file St.init, step := handle }
 
 end EgoVerif.C43
